@@ -111,6 +111,36 @@ def ref_inverse(kind, kw, u):
     return statistics.NormalDist(mu, kw['std']).inv_cdf(u)
 
 
+def make_observation(out, o, native, nspec, w):
+    """observation with bins at least 4 native spacings wide, rows shuffled, not generated from the model"""
+    from taurex.data.spectrum import ArraySpectrum
+    nb = o['nb']
+    spacing = w['dwn']
+    span = native[-1] - native[0]
+    width = max(4.0 * spacing, 0.8 * span / (nb + 1))
+    if width * (nb - 1) > 0.9 * span:
+        nb = max(2, int(0.9 * span / width))
+    c0 = native[0] + 0.6 * width + o['pos'] * max(span - width * (nb - 1) - 1.2 * width, 0.0)
+    centres = c0 + width * np.arange(nb)
+    scale = float(np.median(np.abs(nspec))) or 1.0
+    val = scale * (1.0 + 0.05 * np.array(o['noise'][:nb]))
+    err = 0.02 * scale * np.array(o['err'][:nb])
+    wl = 10000.0 / centres
+    dwl = 10000.0 * (width * np.array(o['wfac'][:nb])) / centres ** 2
+    rows = np.array([wl, val, err] + ([dwl] if o['cols'] == 4 else [])).T
+    perm = [i for i in o['perm'] if i < nb]
+    return cut(out, 'observation', ArraySpectrum, rows[perm].copy())
+
+
+@st.composite
+def observation_spec(draw):
+    nb = draw(st.integers(3, 6))
+    return {'nb': nb, 'cols': draw(st.sampled_from([4, 3])), 'perm': draw(st.permutations(list(range(nb)))),
+            'noise': draw(st.lists(st.floats(-1, 1), min_size=nb, max_size=nb)),
+            'err': draw(st.lists(st.floats(0.2, 3.0), min_size=nb, max_size=nb)),
+            'pos': draw(st.floats(0.05, 0.95)), 'wfac': draw(st.lists(st.floats(0.3, 0.9), min_size=nb, max_size=nb))}
+
+
 def check(case):
     from taurex.core import priors as P
     from taurex.data.spectrum import ArraySpectrum
@@ -133,24 +163,7 @@ def check(case):
             if not np.all(np.isfinite(nspec)) or np.all(nspec == 0):
                 out.cls('degenerate-world')
                 return out
-            # ---- observation: bins at least 4 native spacings wide, rows shuffled --------------------
-            o = case['obs']
-            nb = o['nb']
-            spacing = w['dwn']
-            span = native[-1] - native[0]
-            width = max(4.0 * spacing, 0.8 * span / (nb + 1))
-            if width * (nb - 1) > 0.9 * span:
-                nb = max(2, int(0.9 * span / width))
-            c0 = native[0] + 0.6 * width + o['pos'] * max(span - width * (nb - 1) - 1.2 * width, 0.0)
-            centres = c0 + width * np.arange(nb)
-            scale = float(np.median(np.abs(nspec))) or 1.0
-            val = scale * (1.0 + 0.05 * np.array(o['noise'][:nb]))
-            err = 0.02 * scale * np.array(o['err'][:nb])
-            wl = 10000.0 / centres
-            dwl = 10000.0 * (width * np.array(o['wfac'][:nb])) / centres ** 2
-            rows = np.array([wl, val, err] + ([dwl] if o['cols'] == 4 else [])).T
-            perm = [i for i in o['perm'] if i < nb]
-            obs = cut(out, 'observation', ArraySpectrum, rows[perm].copy())
+            obs = make_observation(out, case['obs'], native, nspec, w)
             owl = np.asarray(obs.wavelengthGrid, dtype=float)
             own = np.asarray(obs.wavenumberGrid, dtype=float)
             oww = np.asarray(obs.binWidths, dtype=float)
